@@ -15,6 +15,7 @@ def node(kind, code=(), init=0, post=0):
 
 PAR = "--par" in sys.argv     # 2-successor items read their successors concurrently (join_all)
 FW = "--fw" in sys.argv       # some ring nodes are firewalls, one consumer is a projection of a firewall ring node
+GATE = "--gate" in sys.argv   # the guarded cycle edges are switched by a firewall next to the cycle (a gate), not by an input
 
 
 def programs(seed, max4):
@@ -35,9 +36,19 @@ def programs(seed, max4):
             for combo in combos:
                 for gmode in (0, 1):   # 0: edges always active, 1: active iff input-derived acc == 1
                     nodes = [node("In") for _ in range(n_in)]
+                    shift = 0
+                    if GATE:
+                        if gmode == 0:
+                            continue
+                        # one gate firewall per input: reads that input only; node ids of the ring move up
+                        shift = n_in
+                        for g_in in range(1, n_in + 1):
+                            nodes.append(node("Fw", [item([g_in])]))
+                        combo = tuple(tuple(x + shift for x in succ) for succ in combo)
                     for j, succ in enumerate(combo):
                         inp = 1 + (j % n_in)
-                        code = [item([inp])]
+                        # guarded nodes read the gate of their input instead of the input itself
+                        code = [item([inp + n_in if GATE and j % 2 == 0 else inp])]
                         md = 1 if PAR and len(succ) == 2 else 0
                         if gmode == 0 or j % 2 == 1:
                             code.append(item(list(succ), c=1, mode=md))
@@ -56,8 +67,12 @@ def programs(seed, max4):
                         out.append({"m": 3, "nodes": nodes})
                         continue
                     # consumers
-                    nodes.append(node("Nm", [item([1]), item([ring[0]], c=1)]))
-                    nodes.append(node("Nm", [item([ring[-1], ring[0]], c=0)]))
+                    nodes.append(node("Nm", [item([1]), item([ring[0] + shift], c=1)]))
+                    nodes.append(node("Nm", [item([ring[-1] + shift, ring[0] + shift], c=0)]))
+                    if GATE:
+                        # an outside reader of a reader (two levels above the cycle) and a projection of the gate
+                        nodes.append(node("Nm", [item([len(nodes) - 1], c=1)]))
+                        nodes.append(node("Pj", [item([n_in + 1], c=1)]))
                     out.append({"m": 3, "nodes": nodes})
     return out
 
